@@ -97,12 +97,15 @@ pub fn snippets(tier: Tier) -> Vec<Snip> {
 #[derive(Default)]
 pub struct Dbs {
     map: HashMap<String, (RootDatabase, usize)>,
+    /// a database is replaced after this many compilations (0: the default of 400); checks that compile
+    /// modules of hundreds of functions set it lower - salsa keeps every revision's data until then
+    pub recycle_after: usize,
 }
 impl Dbs {
     pub fn compile(&mut self, cfg: &Cfg, code: &str) -> Result<Program, String> {
         let key = Cfg { linear: true, ..*cfg }.name();
         let fresh = match self.map.get(&key) {
-            Some((_, n)) => *n > 400,
+            Some((_, n)) => *n > if self.recycle_after == 0 { 400 } else { self.recycle_after },
             None => true,
         };
         if fresh {
